@@ -184,6 +184,16 @@ func stripConv(v ssa.Value) ssa.Value {
 			v = x.X
 		case *ssa.ChangeInterface:
 			v = x.X
+		case *ssa.Parameter:
+			// the parameter of a function literal called where it is made is its argument
+			if x.Parent() == nil || x.Parent().Parent() == nil {
+				return v
+			}
+			arg, _ := inPlaceArg(x)
+			if arg == nil {
+				return v
+			}
+			v = arg
 		default:
 			return v
 		}
